@@ -8,7 +8,7 @@ from .state import fresh, FAM_SORT
 
 IntS, BoolS, StrS = z3.IntSort(), z3.BoolSort(), z3.StringSort()
 
-BUILTIN_FUNCS = {"len", "isinstance", "max", "min", "int", "str", "list", "set", "dict", "sorted", "next",
+BUILTIN_FUNCS = {"repr", "len", "isinstance", "max", "min", "int", "str", "list", "set", "dict", "sorted", "next",
                  "iter", "type", "getattr", "any", "all", "bool", "issubclass", "deepcopy", "copy", "noop_init",
                  "re.finditer", "enumerate", "zip", "range", "tuple", "abs"}
 
@@ -155,6 +155,15 @@ def call_builtin(eng, name, bound_self, args, kwargs, st, fr, k, node=None):
     if name == "str":
         (x,) = args
         return k(st, SStr(bm.format_value(eng, st, x)))
+    if name == "repr":
+        (x,) = args
+        # A-REPR: the repr of an object is an uninterpreted, non-empty string
+        t = x.t if x.t is not None else z3.IntVal(0)
+        f = z3.Function("py_repr_" + str(t.sort()).replace(" ", "_").replace("(", "_").replace(")", "_").replace(",", "_"), t.sort(), StrS)
+        r = f(t)
+        st.assume(z3.Length(r) > 0)
+        eng.trusted_used.add("A-REPR: repr() of an object is a non-empty string")
+        return k(st, SStr(r))
     if name == "type":
         (x,) = args
         if isinstance(x, SRef) and x.kind.startswith("ref:"):
